@@ -31,10 +31,23 @@ def event_sig(ref, ev):
     return t
 
 
-def make_task(label, cfg, alphabet, depth, oracles, hooks=None, max_transitions=None, extra=None):
+def make_task(label, cfg, alphabet, depth, oracles, hooks=None, max_transitions=None, extra=None,
+              part=None):
+    """part=(i, n): explore only histories whose FIRST event has index = i mod n (parallel split)."""
     return {"kind": "seq", "label": label, "cfg": cfg, "alphabet": alphabet, "depth": depth,
             "oracles": sorted(oracles), "hooks": hooks, "max_transitions": max_transitions,
-            "extra": extra or {}}
+            "extra": extra or {}, "part": part}
+
+
+def split(n, **kw):
+    """n tasks that partition one BFS by first event."""
+    out = []
+    for i in range(n):
+        k = dict(kw)
+        k["label"] = "%s#%d/%d" % (kw["label"], i, n)
+        k["part"] = (i, n)
+        out.append(make_task(**k))
+    return out
 
 
 def run_seq_task(mod, task):
@@ -52,7 +65,12 @@ def run_seq_task(mod, task):
         if not dirty and hist and getattr(mod, "CHECK_PRISTINE", False):
             pass
         last_sig = event_sig(r.ref, hist[-1]) if hist else "-"
-        resp = {"violations": viol, "digest": r.digest, "enabled": alphabet(r.ref, task),
+        task["level"] = len(hist)
+        enabled = alphabet(r.ref, task)
+        if not hist and task.get("part"):
+            i, n = task["part"]
+            enabled = [e for j, e in enumerate(enabled) if j % n == i]
+        resp = {"violations": viol, "digest": r.digest, "enabled": enabled,
                 "outcome": seq._outcome_key(r.outcome), "sig": last_sig}
         return resp, dirty
 
